@@ -466,6 +466,14 @@ pub fn client_case(seed: u64, n: u64, ev: &mut Evidence) {
                 }
             }
             match &sres {
+                Some(Res::Err(rodbus::RequestError::Shutdown)) => {
+                    // nobody asked the task to stop: it died
+                    ev.violation(
+                        format!("client_task_gone_after_hostile_input:{}", framing.name()),
+                        "a request submitted after the hostile input completed with Shutdown although the task was never shut down".to_string(),
+                        rep.clone(),
+                    );
+                }
                 Some(Res::Regs(_)) | Some(Res::Err(_)) => {
                     ev.count("handles_usable_after_hostile_input", 1);
                     if matches!(sres, Some(Res::Regs(_))) {
@@ -811,7 +819,8 @@ pub fn run(args: &Args) -> i32 {
     let total: u64 = args.tier.pick(1_200_000, 40_000_000);
     let shards = args.jobs as u64;
     let per = total.div_ceil(shards);
-    let budget = Duration::from_secs(args.tier.pick(240, 3600));
+    // cap on a whole shard; a stuck case is caught by the progress watchdog below long before
+    let budget = Duration::from_secs(args.tier.pick(1200, 7200));
     let outdir = verif_root().join("out");
     let _ = std::fs::create_dir_all(&outdir);
     struct W {
